@@ -50,6 +50,18 @@ impl<T> VecDeque<T> {
     { unimplemented!() }
 }
 
+/// `deque[i]` (std: panics when out of range, so in range is the caller's obligation)
+impl<T> vstd::std_specs::core::IndexSpecImpl<usize> for VecDeque<T> {
+    open spec fn index_req(&self, i: &usize) -> bool { *i < self@.len() }
+}
+impl<T> core::ops::Index<usize> for VecDeque<T> {
+    type Output = T;
+    #[verifier::external_body]
+    fn index(&self, i: usize) -> (r: &T)
+        ensures *r == self@[i as int],
+    { unimplemented!() }
+}
+
 /// the `async fn connect(addr, local_addr)` of tcp.rs (an async fn: NOT verified; sockets are the OS's).  Its future
 /// carries the address it dials; its output, when Ok, is a socket connected to that address.
 #[verifier::external_body]
